@@ -658,3 +658,39 @@ func RequireDNF(c *Ctx, p *Program, rule string, fn *ssa.Function, kind AcceptKi
 	}
 	c.Ob(rule, pkg, fk, name, pos, ok, msg)
 }
+
+// RequireFactsAtInstr: like RequireFacts, but the statements must hold whenever control reaches
+// the given instructions (e.g. "every append of a pair is guarded by not-infinity").
+func RequireFactsAtInstr(c *Ctx, p *Program, rule string, fn *ssa.Function, targets []ssa.Instruction, construct string, reqs []Req) {
+	pkg, fk := relPkg(fnPkgPath(fn)), funcKey(fn)
+	c.Instance(rule, 1)
+	if len(targets) == 0 {
+		c.Ob(rule, pkg, fk, construct+":present", p.Pos(fn.Pos()), false, fk+": the instruction(s) the rule is about were not found ("+construct+")")
+		return
+	}
+	byStmt := stmtEdges(fn)
+	for _, r := range reqs {
+		re := mustRe(r.Pat)
+		deleted := map[edge]bool{}
+		var ms []string
+		for s := range byStmt {
+			if re.MatchString(s) {
+				ms = append(ms, s)
+				for e := range byStmt[s] {
+					deleted[e] = true
+				}
+			}
+		}
+		seen := reach(fn, fn.Blocks[0], deleted)
+		ok := true
+		pos := p.Pos(fn.Pos())
+		for _, t := range targets {
+			if seen[t.Block().Index] {
+				ok = false
+				pos = p.Pos(instrPos(t))
+			}
+		}
+		sort.Strings(ms)
+		c.Ob(rule, pkg, fk, construct+":"+r.Name, pos, ok, fmt.Sprintf("%s: %s is reachable without %s (pattern %q, matching statements %v)", fk, construct, r.Name, r.Pat, ms))
+	}
+}
